@@ -428,6 +428,9 @@ func GenStream(c *simrt.Chooser, o StreamOpts) *Stream {
 	if c.Choose("base0", 4) == 0 {
 		st.Base = 0
 	}
+	if o.StartDB >= 0 && st.Base == 0 {
+		st.Base = 4096 // a stream that continues behind a stored position does not begin at offset 0
+	}
 	st.Boundaries[st.Base] = -1
 	off := st.Base
 	curDB := o.StartDB
